@@ -238,15 +238,12 @@ def methodDependencies (h : Hierarchy) (fuel : Nat) (c : Cls) (n : Name) : Excep
 
 /-! ### well-formedness (what the theorems assume about the MRO data) -/
 
+def nodupB : List Name → Bool
+  | [] => true
+  | n :: rest => !rest.contains n && nodupB rest
+
 /-- the class comes first in its MRO, every other listed class was declared earlier, own function
-names are unique (keys of `dict_`) -/
-def WfClass (h : Hierarchy) (c : Cls) : Prop :=
-  ∃ d, h[c]? = some d ∧ (∃ rest, d.mro = c :: rest ∧ ∀ a ∈ rest, a < c) ∧
-    (d.methods.map (·.name)).Nodup
-
-def WfMro (h : Hierarchy) : Prop := ∀ c, c < h.length → WfClass h c
-
-/-- decidable version used by the driver -/
+names are unique (keys of `dict_`).  Decidable: evaluated by the driver on every case. -/
 def wfClassB (h : Hierarchy) (c : Cls) : Bool :=
   match h[c]? with
   | none => false
@@ -254,7 +251,7 @@ def wfClassB (h : Hierarchy) (c : Cls) : Bool :=
     (match d.mro with
      | [] => false
      | k :: rest => k == c && rest.all (fun a => decide (a < c))) &&
-    (d.methods.map (·.name)).eraseDups.length == d.methods.length
+    nodupB (d.methods.map (·.name))
 
 def wfMroB (h : Hierarchy) : Bool := (List.range h.length).all (wfClassB h)
 
